@@ -184,12 +184,21 @@ class PrepareSimPass( BasePass ):
       # s.b ] next to s.a and s.b ): every place gets the same value object
       other_locations = defaultdict(list)
 
+      def check_not_a_part( obj, where ):
+        # A slice or a field of a signal has no value object of its own in
+        # simulation: it is computed from the value of the whole signal
+        if not obj.is_top_level_signal():
+          raise TypeError( f"{where} is a second name of {obj!r}, which is a part of the signal "
+                           f"{obj.get_top_level_signal()!r}. Parts of signals cannot be simulated under "
+                           f"a name of their own: please use {obj!r} itself." )
+
       Q = [ (top, top) ]
       while Q:
         current_obj, host = Q.pop()
         if isinstance( current_obj, list ):
           for i, obj in enumerate( current_obj ):
             if isinstance( obj, Signal ):
+              check_not_a_part( obj, "An element of a list attribute" )
               if obj in signal_object_mapping:
                 current_obj[i] = signal_object_mapping[ obj ][-1]
                 other_locations[ obj ].append( (current_obj, i, True) )
@@ -215,6 +224,7 @@ class PrepareSimPass( BasePass ):
             if i[0] == '_': continue
 
             if isinstance( obj, Signal ):
+              check_not_a_part( obj, f"{current_obj!r}.{i}" )
               if obj in signal_object_mapping:
                 setattr( current_obj, i, signal_object_mapping[ obj ][-1] )
                 other_locations[ obj ].append( (current_obj, i, False) )
